@@ -5,6 +5,7 @@ Line-protocol handler for the cache-protocol model (property C18).
     CONC run <f|o> <getter> <program> <schedule>      one execution, schedule = thread ids
     CONC explore <f|o> <getter> <program>             all schedules: multiset of outcomes
     CONC inv                                          the lock inventory the model assumes
+    CONC poolinv                                      the reviewed inventory of sync.Pool Get/Put sites
     CONC pkginv                                       the reviewed inventory of guarded package-level state
 
 `f` = cacheStoreOrLoad as it is now, `o` = before commit 231d3ca.  getter: `1>2,2>d,3>e`
@@ -275,6 +276,9 @@ def handle (args : List String) : String :=
       s!"n={total} k={res.length} " ++ " ".intercalate (res.map fun (o, c) => s!"{o}*{c}")
     | _, _ => "bad-args"
   | ["inv"] => showInv
+  | ["poolinv"] =>
+    " ".intercalate (poolInventory.map fun (pl, f, k, a, n, m, c, g) =>
+      s!"{pl}/{f}/{k}({a})/paths={n}/maxput={m}/if={c}/guard={g}")
   | ["pkginv"] =>
     " ".intercalate (pkgInventory.map fun (v, m, f, a, st) => s!"{v}@{m}:{f}/{a}/{st}")
   | _ => "bad-op"
